@@ -1,5 +1,5 @@
 import Pamqp.Spec.Defs
-import Pamqp.Props.TieA.TimeCalls
+
 import Pamqp.Proofs.Time
 /-!
 # C15 — timestamp handling does not depend on the host time zone or DST
